@@ -19,10 +19,11 @@ def run(c):
     obl_phonetic.obl_phonetic_glue(c, 2 if q else 3, budget_s=900)
     obl_phonetic.obl_userfiles(c, budget_s=600)
     obl_context.obl_context(c, thorough=not q, budget_s=600)
-    if A.validate_assembly_concrete(c):
-        ct = A.conv_table_for([])
-        A.obl_empty_strings(c, ct, budget_s=900)
-        A.obl_regex_hygiene(c, 2 if q else 3, budget_s=600)
+    A.validate_assembly_concrete(c)     # a mismatch makes the run inconclusive; the obligations still run, and what they find is reported only after native confirmation
+    ct = A.conv_table_for([])
+    A.obl_empty_strings(c, ct, budget_s=900)
+    A.obl_assembly_no_panic(c, ct, thorough=not q, budget_s=900)
+    A.obl_regex_hygiene(c, 2 if q else 3, budget_s=600)
     c.assume("panic-freedom is decided per event from an arbitrary pre-state satisfying the stated invariants (one inductive step covers "
              "histories of any length); candidate assembly runs with the data sources as oracles")
     c.outside("panics inside okkhor, regex (size limit on the pattern of a very long word), poriborton, edit-distance, serde_json, emojicon, ahash; "
